@@ -915,7 +915,7 @@ func runR_C14(c *Ctx) {
 	equalCoreRules(c, false) // C14 is stated relative to derived Equal, whatever it considers equal
 	hashCoreRules(c, false)
 	sortLessRules(c)
-	compareCoreRules(c)
+	compareCoreRules(c, false)
 	g9Methods(c, methodSpec{"hash.hasHashMethod", "Hash", 0, 1, types.Invalid}, methodSpec{"equal.equalMethodInputParam", "Equal", 1, 1, types.Bool})
 	c.Rep.floor("R-guard", 11)
 }
